@@ -218,6 +218,7 @@ func C15() int {
 			}
 		}
 	})
+	reportBatchAnomalies(c)
 	c.Set("namespace_relations_seen", relSeen)
 	c.Set("plan_summary_forms", sumForms)
 	c.Set("race_reports", s.RaceReports())
